@@ -29,6 +29,9 @@ pub fn check(t: &Trace<'_>, out: &mut CaseOut) -> bool {
     if retained_before > 0 {
         out.count("reconnects_with_inflight_state", 1);
         nontrivial = true;
+        if matches!(cinfo.connack, Some((false, 0, _))) {
+            out.count("reconnects_with_inflight_state_on_a_broker_that_lost_the_session", 1);
+        }
     }
     if let Some(s) = snap0 {
         let fill = if s.tx.capacity == 0 { 100 } else { 100 * s.tx.retained.iter().map(|e| e.len).sum::<usize>() / s.tx.capacity };
